@@ -82,6 +82,9 @@ def opScope (S : Schema) (kind : Option (OpKind × Pos)) : Option String := S.ro
 structure VCtx where
   exp : Option TRef
   locDefault : Bool
+  /-- `typeInfo.ScalarLiteralValues[v]` (fix 07): the value is nested inside a list or object
+      literal that is given where a scalar type is expected; it has no expected type by design. -/
+  inScalar : Bool := false
   deriving Inhabited
 
 def noCtx : VCtx := { exp := none, locDefault := false }
@@ -117,6 +120,35 @@ def objectFields (S : Schema) (t : Option TRef) : Option (List InputDef) :=
     match kindOf S t.base with
     | some (.input defs) => some defs
     | _ => none
+
+/-- `inScalarLiteral(node, NullableType(expected))` for a list literal (type_info.go, fix 07): the
+    node is itself inside a scalar literal, or its expected type is a scalar type. -/
+def nullableIsScalar (S : Schema) (t : Option TRef) : Bool :=
+  match t with
+  | none => false
+  | some t =>
+    match t.nullable with
+    | .named n => (match kindOf S n with
+                   | some (.scalar _) => true
+                   | _ => false)
+    | _ => false
+
+/-- The same for an object literal, whose expected type is unwrapped through lists first. -/
+def baseIsScalar (S : Schema) (t : Option TRef) : Bool :=
+  match t with
+  | none => false
+  | some t =>
+    match kindOf S t.base with
+    | some (.scalar _) => true
+    | _ => false
+
+/-- Are the items of a list literal with context `c` recorded in `ScalarLiteralValues`? -/
+def itemInScalar (S : Schema) (c : VCtx) : Bool :=
+  (itemExpected c.exp).isNone && (c.inScalar || nullableIsScalar S c.exp)
+
+/-- Are the field values of an object literal with context `c` recorded in `ScalarLiteralValues`? -/
+def fieldInScalar (S : Schema) (c : VCtx) : Bool :=
+  (objectFields S c.exp).isNone && (c.inScalar || baseIsScalar S c.exp)
 
 /-! ## fragment lookup tables -/
 
@@ -1029,7 +1061,9 @@ def areTypesCompatible : TRef → TRef → Bool
 def validateVariableUsage (S : Schema) (vd : VarDef) (usagePos : Pos) (c : VCtx) : List Err :=
   match schemaType S vd.type, c.exp with
   | none, _ => [newSecondaryError vd.pos "no type info for variable type"]
-  | _, none => [newSecondaryError usagePos "no type info for location type"]
+  | _, none =>
+    -- fix 07: a variable inside a literal for a scalar has no location type to be checked against
+    if c.inScalar then [] else [newSecondaryError usagePos "no type info for location type"]
   | some variableType, some locationType =>
     match locationType with
     | .nonNull inner =>
@@ -1064,15 +1098,18 @@ def varsValue (S : Schema) (vars : List VarDef) (c : VCtx) : Value → VarAcc
     (match vars.find? (fun vd => vd.name = n) with
      | none => { errs := [newError p "undefined variable"], encountered := [n] }
      | some vd => { errs := validateVariableUsage S vd p c, encountered := [n] })
-  | .list items _ => varsItems S vars (itemExpected c.exp) items
-  | .obj fields _ => varsFields S vars (objectFields S c.exp) fields
+  | .list items _ => varsItems S vars (itemExpected c.exp) (itemInScalar S c) items
+  | .obj fields _ => varsFields S vars (objectFields S c.exp) (fieldInScalar S c) fields
   | _ => {}
-def varsItems (S : Schema) (vars : List VarDef) (t : Option TRef) : List Value → VarAcc
+def varsItems (S : Schema) (vars : List VarDef) (t : Option TRef) (sc : Bool) : List Value → VarAcc
   | [] => {}
-  | v :: rest => varsValue S vars { exp := t, locDefault := false } v ++ varsItems S vars t rest
-def varsFields (S : Schema) (vars : List VarDef) (defs : Option (List InputDef)) : List ObjField → VarAcc
+  | v :: rest =>
+    varsValue S vars { exp := t, locDefault := false, inScalar := sc } v ++ varsItems S vars t sc rest
+def varsFields (S : Schema) (vars : List VarDef) (defs : Option (List InputDef)) (sc : Bool) :
+    List ObjField → VarAcc
   | [] => {}
-  | .mk n _ v :: rest => varsValue S vars (inputCtx defs n) v ++ varsFields S vars defs rest
+  | .mk n _ v :: rest =>
+    varsValue S vars { inputCtx defs n with inScalar := sc } v ++ varsFields S vars defs sc rest
 end
 
 def varsArgs (S : Schema) (vars : List VarDef) (ctxOf : String → VCtx) : List Argument → VarAcc
